@@ -36,14 +36,16 @@ ENVIRONMENT FACTS YOU NEED:
    (it imports the installed wheel, so it will pass regardless — still run a relevant subset once and say so). In addition,
    run the relevant part of the worktree's own tests AGAINST YOUR WORKTREE SOURCE and make sure your change does not add
    failures compared with the unchanged worktree: `cd {wt} && /venv/bin/python -c "import sys,types; sys.path.insert(0,'{wt}/src'); m=types.ModuleType('vivarium._version'); m.__version__='0+x'; m.version='0+x'; sys.modules['vivarium._version']=m; import pytest; sys.exit(pytest.main(['-q','-p','no:cacheprovider','-x','tests/framework/<dir or file>']))"`
-   (some tests already fail on the unchanged worktree because of pandas-3 incompatibilities; compare before/after with `git stash`).
+   (some tests already fail on the unchanged worktree because of pandas-3 incompatibilities; compare before/after).
+ * NEVER use `git stash` (the stash is shared between worktrees and other people are working in sibling worktrees). An
+   unchanged copy of the source is at {wt}/PRISTINE/src — use it for every 'without the change' run.
 
 DELIVERABLES, written into {wt}/SEED/ :
  * patch.diff   — `git -C {wt} diff -- src` of your change (source only; do not commit).
  * demo.py      — a self-contained script that takes the source root as argv[1] (e.g. `{wt}/src` or a pristine copy),
                   boots it as shown above, exercises the property through the package's public behaviour, and exits 0 if
                   the property holds and 1 (printing what went wrong) if it is violated. It must exit 1 with your change
-                  applied and exit 0 on the unchanged source (`git stash` to check, then `git stash pop`).
+                  applied and exit 0 on the unchanged source (`/venv/bin/python demo.py {wt}/PRISTINE/src`).
  * meta.json    — {{"property": "{pid}", "summary": "...", "needs_to_manifest": "...", "files_changed": [...],
                   "tests_run": "...", "demo_with_change": "exit 1: ...", "demo_without_change": "exit 0"}}
 Leave the change applied in the worktree when you finish. Final message: a short description of the change, why it
